@@ -120,19 +120,61 @@ def main(rep):
                 validated += len(soak)
             if not found and base and base[-1][1] > base[0][1]:
                 pass
+        # the event loop of main(): every notification carries a descriptor; however many events of whatever kind are
+        # handled (editor exec, write, the daemon's own writes, events with neither or both bits), each of these
+        # descriptors is closed exactly once
+        import main_common as mc
+        kinds = [dict(exe=1), dict(wr=1), dict(wr=1, pid=mc.SELF), dict(exe=1, wr=1), dict(), dict(exe=1, pid=mc.SELF)]
+        lcases = []
+        for ci, nslots in enumerate([5, 20, 60, 60] if rep.tier == "quick" else [5, 20, 60, 60, 60, 60, 60, 60]):
+            slots = []
+            for i in range(nslots):
+                kw = dict(rng.choice(kinds))
+                kw["fd"] = 1005 + i
+                kw["timeout"] = rng.choice([0, 3, -1])
+                slots.append(mc.slot(**kw))
+            lcases.append(("loop%d" % ci, mc.main_case(slots=slots), slots))
+        limpl, lmodel, lproblems = vlib.correspond(exe_impl, exe_model, "main", [(c, t) for c, t, _ in lcases], sandbox=True)
+        total += len(lcases)
+        for cid, script, slots in lcases:
+            il = limpl.get(cid) or []
+            closed = sorted(int(l.split()[1]) for l in il if l.startswith("close "))
+            want = sorted(sl[7] for sl in slots)
+            if not found and closed != want:
+                left = sorted(set(want) - set(closed))
+                twice = sorted(x for x in set(closed) if closed.count(x) > 1)
+                rep.violation("loop-descriptors", {"case": cid, "script": script.split("\n"), "driver": "main", "implementation": il[-12:],
+                                                   "what": "after %d events the event loop has not closed the descriptors of %d of them (first: event %s) and closed %d twice: "
+                                                           "descriptor use grows with the number of events" % (len(slots), len(left), (left[0] - 1005) if left else None, len(twice))})
+                found = True
+                break
+            if exe_model and il != lmodel.get(cid):
+                rep.defer_divergence({"case": cid, "script": script.split("\n"), "driver": "main", "implementation": il, "model": lmodel.get(cid),
+                                      "what": "implementation and model differ on the event loop"})
+                continue
+            validated += 1
+        problems += lproblems
         for p in problems:
             rep.notes.append(p)
     rep.cov["evaluations"] = total
     rep.cov["distinct_nontrivial"] = total
     rep.cov["traces_validated_against_impl"] = validated
-    rep.cov["input_distribution"] = {"histories": total - 3, "soak_runs": 3}
+    rep.cov["input_distribution"] = {"histories": n if exe_impl else 0, "soak_runs": 3, "event_loop_scripts": total - 3 - (n if exe_impl else 0)}
     rep.cov["rule"] = ("random mixed histories with the number of descriptors opened by klunok and not closed (wrapped open/close) checked after every operation: "
                        "2 with a handler loaded, 0 after release; soak: one round of a mixed history (editor exec with ELF interpreter, four damaged editor-named ELF images, plain files, sources replaced by a directory / made unreadable, a history path, "
                        "a project file, a collision, a deleted source, a deleted source whose clean-up fails with EACCES, four passes) repeated 1, 10 and 100 times must end with identical counts of live heap "
-                       "blocks (wrapped malloc/calloc/realloc/strdup/free) and descriptors, before and after releasing the handler")
+                       "blocks (wrapped malloc/calloc/realloc/strdup/free) and descriptors, before and after releasing the handler; the real main() loop over 5-60 scripted events of every "
+                       "kind (the daemon's own included): the descriptor of each event is closed exactly once")
     rep.cov["samples"] = [soak_script(1, rep.seed).split("\n")[-25:]]
     vlib.conclude_proofs(rep, found)
 
 
 def replay(rep, path):
+    import json
+    d = json.load(open(path))
+    if d.get("driver") == "main":
+        exe_impl, exe_model = vlib.prepare(rep)
+        impl, model, _ = vlib.correspond(exe_impl, exe_model, "main", [("replay", "\n".join(d["script"]))], sandbox=True)
+        print("implementation:", (impl.get("replay") or [])[-12:])
+        return 1 if impl.get("replay") != model.get("replay") else 0
     return wk.replay_world(rep, path, MON)
